@@ -25,8 +25,11 @@ SLEEP = oracles.SLEEPERS
 TOL = {"vtol": 1e-11, "itol": 1e-11}
 
 
-def behaviour_system(desc, phase, rows):
-    """the phase-free system in which every component takes its behaviour for `phase`"""
+def behaviour_system(desc, phase, rows, prune=False):
+    """the phase-free system in which every component takes its behaviour for `phase`.
+    prune: an active PMux keeps only its LIVE inputs (in order, with their rs entries) - a dead input takes no part in what a mux
+    does (C05), so this is the same circuit; it is a second, independently built reference for phases in which the priority input
+    of a mux is dead"""
     pars = oracles.declared_parents(desc)
     comps = []
     replaced = {}          # name of an inactive sleeper -> name of the dead source standing in for its output
@@ -54,6 +57,14 @@ def behaviour_system(desc, phase, rows):
             c2 = {"name": c["name"], "kind": "iload", "args": {"ii": abs(c["args"].get("iis", 0.0)), "loss": True},
                   "parents": [feeder]}
             replaced[c["name"]] = "__dead_" + c["name"]
+        if prune and k == "pmux" and not (pc and phase not in pc):
+            ins = c2["parents"]
+            keep = [j for j, q in enumerate(ins) if rows[q]["vout"] != 0.0]
+            if keep and len(keep) < len(ins):
+                c2["parents"] = [ins[j] for j in keep]
+                if isinstance(c2["args"].get("rs"), list) and len(c2["args"]["rs"]) == len(ins):
+                    c2["args"]["rs"] = [c2["args"]["rs"][j] for j in keep]
+                c2["plist"] = True
         out.append(c2)
     extra = [{"name": d, "kind": "source", "args": {"vo": 0.0}, "parents": []} for d in replaced.values()]
     for c2 in out:
@@ -121,9 +132,20 @@ def one(ctx, desc):
     if not isinstance(e, ValueError):
         ctx.oracle(desc, "unknown_phase_rejected", "solve", {}, {"exception": repr(e)})
     # ---- oracle 3: behaviour system per phase
+    pars_ = oracles.declared_parents(desc)
+    variants = []
     for p in obs["phases"]:
         rows = {r["name"]: r for r in p["rows"]}
-        beh, replaced = behaviour_system(desc, p["phase"], rows)
+        variants.append((p, False))
+        for c in desc["comps"]:
+            if c["kind"] == "pmux" and len(pars_[c["name"]]) > 1:
+                lv = [rows[q]["vout"] != 0.0 for q in pars_[c["name"]]]
+                if any(lv) and not all(lv):
+                    variants.append((p, True))
+                    ctx.stats["behaviour_systems_with_pruned_mux"] += 1
+    for p, prune in variants:
+        rows = {r["name"]: r for r in p["rows"]}
+        beh, replaced = behaviour_system(desc, p["phase"], rows, prune=prune)
         s2, df2, err2 = solved.solve_case(beh, TOL)
         if err2 is not None:
             ctx.stats["behaviour_system_unsolved:%s" % sysdesc.exc_class(err2[1])] += 1
@@ -147,6 +169,8 @@ def one(ctx, desc):
 
 
 def gen_fn(rng):
+    if rng.random() < 0.08:
+        return gen.zero_vs_omitted(rng)      # two phases that differ only in "explicit 0" vs "not listed" for one load
     d = gen.gen_system(rng, phases=1.0, max_nodes=12, p_neg_src_rs=0.0, p_mux=0.4, p_micro=0.2)
     if rng.random() < 0.12:
         d["_call"] = {"quiet": False}      # the progress display is switched on: printing is no part of the result
